@@ -732,12 +732,26 @@ def key_of(case):
     return json.dumps(case, sort_keys=True)
 
 
+def corpus_cases():
+    """minimised past disagreements (corpus/C14/*.json), run first"""
+    import glob
+    out = []
+    for p in sorted(glob.glob(os.path.join(os.path.dirname(BUILD), 'corpus', 'C14', '*.json'))):
+        with open(p) as f:
+            c = json.load(f).get('case')
+        if valid_case(c):
+            out.append(c)
+    return out
+
+
 def shard(arg):
     seed, idx, nshards, nrandom, thorough = arg
     res = Result()
     cases = [c for i, c in enumerate(G.enumerate_cases(thorough)) if i % nshards == idx]
     rng = random.Random('%s/%s/C14' % (seed, idx))
     cases += [G.random_case(rng) for _ in range(nrandom)]
+    if idx == 0:
+        cases = corpus_cases() + cases
     os.makedirs(SCRATCH, exist_ok=True)
     pairs = []
     for case in cases:
